@@ -46,9 +46,10 @@ type c28World struct {
 	finalIdx  int
 	settled   int
 	idleSince time.Duration
-	down      map[string]bool   // router crashed, restart pending
-	pendingRe map[string]bool   // edge has a reconnect action pending
-	wantEdge  map[string]uint64 // topology: edge -> link id to use on (re)connect (0 = fresh)
+	down      map[string]bool       // router crashed, restart pending
+	pendingRe map[string]bool       // edge has a reconnect action pending
+	par       map[string]*fsub.Conn // second, parallel link of an edge (same fate)
+	wantEdge  map[string]uint64     // topology: edge -> link id to use on (re)connect (0 = fresh)
 }
 
 type c28Final struct {
@@ -63,7 +64,7 @@ func init() {
 		Cfg:        dsim.Config{MaxChaosSteps: 200, MaxStableSteps: 30000, Horizon: 20 * time.Second},
 		Real:       []string{"pubsub/floodsub.FloodSub routers (3-5 instances): AddPeerStream, Execute, subscription propagation, handlePublish, handleValidMessage, de-duplication cache, execPublish", "pubmessage signing/verification", "stream/packet framing"},
 		Stub:       []string{"routers are joined directly by simulator-owned streams (the pubsub controller and the transport controller are exercised under C29 instead)", "go-cache janitor goroutine not started"},
-		FaultKinds: []string{"fault:link-flap-same-tuple", "fault:link-flap-new-tuple", "fault:node-restart", "fault:clock-jump", "fault:chunking"},
+		FaultKinds: []string{"fault:link-flap-same-tuple", "fault:link-flap-new-tuple", "fault:node-restart", "fault:clock-jump", "fault:chunking", "fault:parallel-link"},
 	})
 }
 
@@ -159,6 +160,17 @@ func (w *c28World) Setup(s *dsim.Sim) {
 			w.wantEdge[ek(a, b)] = 0
 		}
 	}
+	// in some runs one pair of routers is joined by two links at once (two transports
+	// between the same peers): a second stream pair with its own link id, sharing the fate
+	// of the edge
+	w.par = map[string]*fsub.Conn{}
+	if t.Bool(1, 4, "parallel-link") {
+		ks := w.sortedEdges()
+		k := ks[t.Draw(len(ks), "parallel-edge")]
+		ab := strings.Split(k, "-")
+		w.par[k] = w.fw.Connect(w.fw.Nodes[ab[0]], w.fw.Nodes[ab[1]], 0)
+		s.Count("fault:parallel-link")
+	}
 	w.maxOps = 2 + t.Draw(14, "max-ops")
 	s.ArmFraction([]int{0, 0, 50, 100}[t.Draw(4, "arm-pct")], []string{"floodsub/", "go:pubsub/floodsub/"})
 }
@@ -246,6 +258,7 @@ func (w *c28World) Actions(s *dsim.Sim, add func(dsim.Action)) {
 		add(dsim.Action{Name: "5flt:flap:" + k, Weight: 2, Fault: true, Fire: func() {
 			w.ops++
 			c.Break()
+			w.breakPar(k)
 			same := t.Bool(1, 2, "same-tuple")
 			id := uint64(0)
 			if same {
@@ -281,6 +294,7 @@ func (w *c28World) Actions(s *dsim.Sim, add func(dsim.Action)) {
 			for k, c := range w.edges {
 				if c != nil && (c.A.Node == nd || c.B.Node == nd) {
 					c.Break()
+					w.breakPar(k)
 					w.edges[k] = nil
 					w.wantEdge[k] = 0 // the restarted router gets fresh link tuples
 				}
@@ -303,6 +317,13 @@ func (w *c28World) Actions(s *dsim.Sim, add func(dsim.Action)) {
 				}
 			})
 		}})
+	}
+}
+
+func (w *c28World) breakPar(k string) {
+	if c := w.par[k]; c != nil {
+		c.Break()
+		delete(w.par, k)
 	}
 }
 
